@@ -160,6 +160,10 @@ def main():
             vres = f_vac.result()
         if res.status == 'undecided' and 'resource limit' in res.reason:
             res = run_unit(u, REPO, rlimit=rlimit * 4, seed=seed + 7)
+        if res.status == 'undecided' and 'resource limit' in res.reason:
+            # a changed function can make the solver wander before it finds the failing branch: one more try with a large
+            # budget (a refutation then comes out as a named failed obligation instead of "undecided")
+            res = run_unit(u, REPO, rlimit=rlimit * 16, seed=None)
         return u, res, cens, vres
 
     kani_pool = cf.ThreadPoolExecutor(max_workers=1)
